@@ -59,4 +59,44 @@ theorem unconfigured_uses_default (canon : String → Option String) (d : Hasher
     obtain ⟨e0, _, rfl⟩ := he
     simp [EntryH.keyMt, EntryH.valueMt, getHasher]
 
+/-! ### options are independent settings -/
+
+/-- two options that set different fields commute -/
+theorem applyOpt_comm {κ ℓ τ : Type} (c : MzCfg κ ℓ τ) (a b : MzOpt κ ℓ τ) (h : a.field ≠ b.field) :
+    applyOpt (applyOpt c a) b = applyOpt (applyOpt c b) a := by
+  cases a <;> cases b <;> first | rfl | (simp [MzOpt.field] at h)
+
+/-- an option never touches a field other than its own: in particular a loader, a tree, a safe-mode or an IPFS option
+    listed after `WithHasher` leaves the configured hasher in place (the default is never substituted by a later option) -/
+theorem later_options_keep_hasher {κ ℓ τ : Type} (c : MzCfg κ ℓ τ) (os : List (MzOpt κ ℓ τ))
+    (h : ∀ o ∈ os, o.field ≠ 0) : (applyOpts c os).hasher = c.hasher := by
+  induction os generalizing c with
+  | nil => rfl
+  | cons o os ih =>
+    simp only [applyOpts, List.foldl_cons]
+    have := ih (applyOpt c o) (fun x hx => h x (List.mem_cons_of_mem _ hx))
+    simp only [applyOpts] at this
+    rw [this]
+    have ho := h o List.mem_cons_self
+    cases o <;> first | rfl | (simp [MzOpt.field] at ho)
+
+/-- **the order of options that set different fields is no input**: any two orders give the same configuration -/
+theorem option_order_irrelevant {κ ℓ τ : Type} (c : MzCfg κ ℓ τ) (os os' : List (MzOpt κ ℓ τ)) (hp : os.Perm os')
+    (hd : os.Pairwise (fun a b => a.field ≠ b.field)) : applyOpts c os = applyOpts c os' := by
+  induction hp generalizing c with
+  | nil => rfl
+  | cons x _ ih =>
+    simp only [applyOpts, List.foldl_cons]
+    exact ih _ (List.pairwise_cons.mp hd).2
+  | swap x y l =>
+    simp only [applyOpts, List.foldl_cons]
+    have hxy : y.field ≠ x.field := (List.pairwise_cons.mp hd).1 x List.mem_cons_self
+    rw [applyOpt_comm c y x hxy]
+  | trans h1 h2 ih1 ih2 =>
+    rw [ih1 c hd]
+    exact ih2 c (hd.perm h1 (fun hab => Ne.symm hab))
+
+example : (applyOpts ({} : MzCfg Nat Nat Nat) [.withHasher 7, .withLoader 1, .withSafeMode false]).hasher = some 7 ∧
+    (applyOpts ({} : MzCfg Nat Nat Nat) [.withLoader 1, .withSafeMode false, .withHasher 7]).hasher = some 7 := by decide
+
 end Gsp.Props.C16
